@@ -461,3 +461,22 @@ async fn replay_f_c06a_no_index_is_handed_to_the_apply_worker_twice() {
         "indexes {twice:?} were handed to the apply worker twice (forwarded in this order: {forwarded:?}); the worker applies every batch it receives"
     );
 }
+
+// ---------------------------------------------------------------------------------------------
+// F-C19a  TermSegments: after more than MAX_TERM_SEGMENTS (1024) term changes in the log, a term lookup for an
+//         index below the current term's first index walks `0..seg_count` over arrays of 1024 slots
+// ---------------------------------------------------------------------------------------------
+#[test]
+fn replay_f_c19a_term_lookup_after_many_term_changes_answers_like_a_plain_log() {
+    use crate::storage::TermSegments;
+    let segs = TermSegments::new();
+    // a log in which every entry belongs to a new term: 1030 leadership changes
+    let entries: Vec<Entry> = (1..=1030u64).map(|i| Entry { index: i, term: i, payload: None }).collect();
+    segs.on_append(&entries);
+    // a plain log answers: entry 5 has term 5
+    let got = std::panic::catch_unwind(std::panic::AssertUnwindSafe(|| segs.get(5)));
+    assert!(got.is_ok(), "TermSegments::get(5) panicked (index out of bounds in the segment arrays) after 1030 term changes");
+    // beyond its capacity the index may defer to the entries themselves (None), but it must never answer another term
+    let got = got.unwrap();
+    assert!(got.is_none() || got == Some(5), "a plain indexed log answers term 5 for index 5, TermSegments answered {got:?}");
+}
